@@ -1,5 +1,6 @@
 import TantivyModel.Driver.Proto
 import TantivyModel.Model.TopN
+import TantivyModel.Model.Wand
 /-!
 Line protocol of the C06 model. Keys travel as integers (the harness maps real keys to ranks
 that preserve the comparator's order), addresses as naturals.
@@ -11,6 +12,10 @@ that preserve the comparator's order), addresses as naturals.
 * `search <K> <O> <order> <sel> <keys> <addrs> <segment lengths>` — per-segment collection,
   `merge_top_k`, offset (generic sort key path).
 * `scoresearch <K> <O> <keys> <addrs> <segment lengths>` — per-segment `TopNHeap` + merge.
+* `wand1 <policy> <arg> <initial> <blocks>` — `block_wand_single_scorer` on one term's postings:
+  blocks `bm:doc@score,doc@score;bm:…` (scores, bounds and thresholds as order-preserving
+  naturals), callback policy `kth <K>` | `stair 0` | `const <θ>`; answer: the documents offered
+  to the callback, `|`, the final threshold.
 -/
 namespace TantivyModel.Driver.C06
 open TantivyModel TantivyModel.Proto TantivyModel.TopN
@@ -46,7 +51,45 @@ def scoreSearch (gt : Int → Int → Bool) (sel : List (Entry Int) → List (En
     (segs : List (List (Entry Int))) : List (Entry Int) :=
   mergeTopK gt sel K O (segs.map fun d => (d.foldl (heapPush gt) (Heap.new (O + K))).heap)
 
+/-- callback policies of the correspondence run (thresholds never decrease) -/
+structure CbState where
+  best : List Nat := []
+  θ : Nat
+  calls : List Nat := []
+
+def cbOf (policy : String) (arg : Nat) (s : CbState) (d sc : Nat) : CbState × Nat :=
+  let θ' := match policy with
+    | "kth" =>
+      let best := (TopN.isort (fun a b => decide (b ≤ a)) (sc :: s.best)).take arg
+      if best.length = arg then Nat.max s.θ (best.getLast?.getD s.θ) else s.θ
+    | "stair" => Nat.max s.θ sc
+    | _ => Nat.max s.θ arg
+  let best := if policy == "kth" then (TopN.isort (fun a b => decide (b ≤ a)) (sc :: s.best)).take arg else s.best
+  ({ best := best, θ := θ', calls := s.calls ++ [d] }, θ')
+
+def parseBlock (s : String) : Option (Wand.Block Nat) :=
+  match s.splitOn ":" with
+  | [bm, docs] =>
+    match bm.toNat?, (if docs == "" then some [] else (docs.splitOn ",").mapM fun e =>
+        match e.splitOn "@" with
+        | [d, sc] => match d.toNat?, sc.toNat? with
+          | some d, some sc => some (d, sc)
+          | _, _ => none
+        | _ => none) with
+    | some bm, some ds => some { docs := ds, blockMax := bm }
+    | _, _ => none
+  | _ => none
+
 def handle : List String → String
+  | ["wand1", policy, arg, initial, blocks] =>
+    match arg.toNat?, initial.toNat?, (if blocks == "-" then some [] else (blocks.splitOn ";").mapM parseBlock) with
+    | some arg, some θ0, some bs =>
+      if policy == "kth" ∨ policy == "stair" ∨ policy == "const" then
+        let gt : Nat → Nat → Bool := fun a b => decide (b < a)
+        let (st, θ) := Wand.wandSingle gt (cbOf policy arg) ({ θ := θ0 }, θ0) bs
+        showNatList st.calls ++ "|" ++ toString θ
+      else "bad-op"
+    | _, _, _ => "bad-op"
   | ["topn", k, order, sel, keys, addrs] =>
     match k.toNat?, gtOf order, intList keys, natList addrs with
     | some K, some gt, some ks, some as =>
